@@ -166,6 +166,13 @@ func genC13Case(t *rapid.T) C13Case {
 			lines = append(nl, lines[at:]...)
 		}
 	}
+	// now and then a value with a long run of references to a one-valued variable (the shipped
+	// tunables define @{hex}, @{word} and @{rand} with up to 64 references in one value)
+	if chance(t, "manyrefs", 12) {
+		k := rapid.IntRange(20, 70).Draw(t, "nrefs")
+		lines = append(lines, C13Line{Kind: "var", Name: "h1", Define: true, Values: []string{"[0-9a-f]"}},
+			C13Line{Kind: "var", Name: "hexrun", Define: true, Values: []string{"/" + strings.Repeat("@{h1}", k)}})
+	}
 	c.Lines = lines
 	na := rapid.IntRange(0, 2).Draw(t, "natt")
 	for i := 0; i < na; i++ {
@@ -443,15 +450,15 @@ func TestC13_Resolve(t *testing.T) {
 }
 
 func TestC13_Invalid(t *testing.T) {
-	ev := NewEv(t, "C13", "invalid", "a valid generated preamble with one injected fault: reference to an undefined variable, a directly self-referential value, a second '=' of the same name (each must make Resolve return an error, not panic, and the reference parser must reject the same text), or an append placed before its definition (no-panic probe only). Non-trivial: every case; distinct by text")
+	ev := NewEv(t, "C13", "invalid", "a valid generated preamble with one injected fault: reference to an undefined variable, a directly self-referential value, an undefined variable in the attachment only, a second '=' of the same name (each must make Resolve return an error, not panic, and the reference parser must reject the same text), or an append placed before its definition (no-panic probe only). Non-trivial: every case; distinct by text")
 	n := 0
 	rapid.Check(t, func(t *rapid.T) {
 		c := genC13Case(t)
-		kind := pick(t, "fault", []string{"undefined", "selfref", "redefine", "append-first"})
+		kind := pick(t, "fault", []string{"undefined", "undefined-attachment", "selfref", "redefine", "append-first"})
 		c.Invalid = kind
 		var varIdx []int
 		for i, l := range c.Lines {
-			if l.Kind == "var" {
+			if l.Kind == "var" && l.Name != "h1" && l.Name != "hexrun" { // a second value for h1 would mean 2^k expansions
 				varIdx = append(varIdx, i)
 			}
 		}
@@ -461,6 +468,10 @@ func TestC13_Invalid(t *testing.T) {
 		switch kind {
 		case "undefined":
 			l.Values[0] = l.Values[0] + "/@{nope}"
+		case "undefined-attachment":
+			// the undefined variable only shows in the profile's attachment (the first one: the
+			// reference parser is shown a single attachment)
+			c.Attachments = append([]string{"/opt/@{nope}/x"}, c.Attachments...)
 		case "selfref":
 			l.Values[0] = "@{" + l.Name + "}/self"
 		case "redefine":
